@@ -70,7 +70,7 @@ class TransferTransformer(BaseEstimator, TransformerMixin):
             insp = inspect.signature(self.estimator_.fit)
             pars = insp.parameters
             if "y" in pars and "sample_weight" in pars:
-                self.estimator_.fit(X, y, sample_weight)
+                self.estimator_.fit(X, y, sample_weight=sample_weight)
             elif "y" in pars:
                 self.estimator_.fit(X, y)
             elif "sample_weight" in pars:
